@@ -18,10 +18,32 @@ ASSUMPTIONS = ['input alphabet of the theorem: no U+000E/U+000F; Python-whitespa
 
 IND, DED = '\x0e', '\x0f'
 
-def nf_oracle(size, text, out):
-    """The property, evaluated independently on the implementation's output. Returns None or a description."""
+def nf_oracle(size, text, out, structural_only=False):
+    """The property, evaluated independently on the implementation's output. Returns None or a description.
+    structural_only: for texts with blanks other than space / tab / newline (a non-breaking space pasted from a word processor), where
+    "trimmed" is not defined by the property: everything about markers, tabs and U+0020 at line ends is still checked, the comparison of
+    the lines with the input's is not"""
     if not isinstance(out, str):
         return 'pre_parse raised %r' % (out,)
+    if structural_only:
+        if out == '': return None
+        if not out.endswith('\n'): return 'no final newline'
+        lines = out[:-1].split('\n')
+        if lines[0] == '': return 'blank first line'
+        depth, prev_ind = 0, False
+        for l in lines:
+            if '\t' in l: return 'tab in output'
+            if l.startswith(' ') or l.endswith(' '): return 'leading/trailing space on a line'
+            if (IND in l or DED in l) and l not in (IND, DED): return 'marker not alone on its line'
+            if l == IND: depth += 1; prev_ind = True
+            elif l == DED:
+                if prev_ind: return 'empty block opened'
+                depth -= 1; prev_ind = False
+                if depth < 0: return 'closes more blocks than are open'
+            else: prev_ind = False
+        if prev_ind: return 'empty block opened at end'
+        if depth != 0: return 'unbalanced markers'
+        return None
     exp = text.replace('\t', ' ' * size)
     in_lines = [l.strip(' ') for l in exp.split('\n')]
     while in_lines and in_lines[0] == '':
@@ -90,6 +112,17 @@ def cases(ctx, budget):
                     out.append((size, '\n'.join(up + tail) + '\n'))
     for i in range(ctx.n(3000, 100000) * budget):
         out.append((ctx.rng.choice([1, 2, 2, 3, 4]), gen.random_layout_text(ctx.rng, 10)))
+    # lines whose first (or last) character after the indentation is a blank that is not a space - a non-breaking space before a
+    # number pasted from a word processor: it is line content; the structural half of the property is checked on these
+    for i in range(ctx.n(600, 20000) * budget):
+        ls = []
+        for l in gen.random_layout_text(ctx.rng, 8).split('\n'):
+            n = len(l) - len(l.lstrip(' \t'))
+            r = ctx.rng.random()
+            if l.strip() and r < 0.3: l = l[:n] + ctx.rng.choice('\xa0\u3000\u2003\u2009\u202f') + l[n:]
+            elif l.strip() and r < 0.4: l = l + ctx.rng.choice('\xa0\u3000') + ctx.rng.choice(['', ' ', '  '])
+            ls.append(l)
+        out.append((ctx.rng.choice([1, 2, 2, 3, 4]), '\n'.join(ls)))
     return out
 
 def correspondence(ctx):
@@ -116,6 +149,11 @@ def search(ctx, budget):
         got = impl.pmap(impl.pre_parse, cs)
     for (size, text), out in zip(cs, got):
         if not in_alphabet(text):
+            if any(c in '\x0e\x0f' for c in text): continue
+            ctx.count('oracle_cases_structural')
+            bad = nf_oracle(size, text, out, structural_only=True)
+            if bad:
+                ctx.failures.append(({'stage': 'pre', 'size': size, 'text': text, 'observed': out, 'structural_only': True}, bad))
             continue
         ctx.count('oracle_cases')
         bad = nf_oracle(size, text, out)
@@ -124,10 +162,11 @@ def search(ctx, budget):
 
 def probe_disagreement(ctx, stage, case):
     out = impl.pre_parse((case['size'], case['text']))
-    if in_alphabet(case['text']):
-        bad = nf_oracle(case['size'], case['text'], out)
+    so = not in_alphabet(case['text'])
+    if not any(c in '\x0e\x0f' for c in case['text']):
+        bad = nf_oracle(case['size'], case['text'], out, structural_only=so)
         if bad:
-            ctx.failures.append(({'stage': 'pre', 'size': case['size'], 'text': case['text'], 'observed': out}, bad))
+            ctx.failures.append(({'stage': 'pre', 'size': case['size'], 'text': case['text'], 'observed': out, 'structural_only': so}, bad))
 
 CLASSIFIERS = {}
 
@@ -137,7 +176,7 @@ def replay(obj):
         print('nothing to replay:', obj.get('broken_obligations')); return 1
     out = impl.pre_parse((case['size'], case['text']))
     m = model.run([['pre', case['size'], case['text']]])[0]
-    bad = nf_oracle(case['size'], case['text'], out)
+    bad = nf_oracle(case['size'], case['text'], out, structural_only=bool(case.get('structural_only')))
     print('input   :', repr(case['text']), 'size', case['size'])
     print('impl    :', repr(out)); print('model   :', repr(m)); print('oracle  :', bad or 'ok')
     return 1 if (bad or out != m) else 0
